@@ -1,7 +1,7 @@
 import D2V.Drv.Common
 import D2V.Drv.SemX
 import D2V.Model.Import
-open Lean D2V.Drv D2V.Drv.SemX D2V.SemAst D2V.Import
+open Lean D2V.Drv D2V.Drv.SemX D2V.SemAst D2V.Import D2V.ImportFlat D2V.Boards
 
 /-!
   C14 driver.
@@ -22,6 +22,24 @@ def xform (j : Json) : Except String Json := do
   match D2V.Import.inline prog with
   | .ok q => pure (Json.mkObj [("files", files), ("q", renderBody 0 q)])
   | .error _ => pure (Json.mkObj [("files", files), ("q", Json.null)])
+
+/-! flat fragment with imports at the top of files: the model `evalF` (compile the imported file in its own map,
+    overlay it) against the compiled graph -/
+
+def flatItems (prog : Prog) (fileName : String) (body : Body) : Option (List FItem) :=
+  body.zipIdx.mapM fun (s, i) => match s with
+    | .spreadImp raw =>
+      if i != 0 || !(parseImp raw).keys.isEmpty then none
+      else
+        let p := normalise [fileName] raw
+        (prog.findIdx? (·.name == p)).map FItem.spread
+    | s => match opOfStmt s with
+      | some [o] => (match s with
+          | .field _ [n] _ _ => if (boardKw [n]).isSome || n.s == "classes" || n.s == "vars" then none else some (FItem.op o)
+          | _ => some (FItem.op o))
+      | _ => none
+
+def flatFiles (prog : Prog) : Option Files := prog.mapM fun f => flatItems prog f.name f.body
 
 def isPrefixOf (p s : String) : Bool := s.startsWith p
 
@@ -70,8 +88,16 @@ def handleC14 (j : Json) : Except String Verdict := do
       match gp, gq with
       | .graph a, .graph b =>
         match boardDiff "root" a b with
-        | none => return .ok
         | some d => return .specfalse "graph-differs" d
+        | none =>
+          -- model vs implementation on the flat fragment
+          match flatFiles prog with
+          | none => return .ok
+          | some fs =>
+            let c := evalF (fs.length + 1) fs (fs.headD []) []
+            let exp := sortEnts (c.map fun (n, av) => { id := n, attrs := expectedAttrs n av })
+            if exp == a.objs then return .ok
+            else return .mismatch "import-model" s!"evalF {repr exp} vs compiled {repr a.objs}"
       | .errs a, .errs b =>
         if a == b then return .ok else return .specfalse "errors-differ" s!"{a} vs {b}"
       | a, b => return .specfalse ("outcome-differs:" ++ a.kindStr ++ "-vs-" ++ b.kindStr) s!"{a.brief} vs inlined {b.brief}"
